@@ -162,23 +162,46 @@ static void xb_body(void *arg)
     }
 }
 
+static void xb_ext(void *arg)
+{
+    xb_body(arg);
+}
 static void run_c08_x(void)
 {
     memset(&X, 0, sizeof X);
     wl_rt rt;
-    wl_rt_start(&rt, WL_RT_PRIVATE_ONLY | WL_RT_MIN2ES);
-    X.n = rt.nes;
+    /* any number of streams, one is enough: external threads are legal callers too ("if the
+     * caller is either a ULT or a tasklet, the underlying execution stream is blocked") */
+    wl_rt_start(&rt, WL_RT_PRIVATE_ONLY | (plan_n(3) ? WL_RT_MIN2ES : 0));
+    int nes_part = plan_n(4) == 0 ? plan_range(1, rt.nes) : rt.nes; /* streams 0..nes_part-1 take part */
+    int next = plan_n(2) ? plan_range(0, 3) : 0;
+    if (nes_part + next < 1)
+        next = 1;
+    X.n = nes_part + next;
     X.R = plan_range(1, sim_limit("rounds", 5));
-    sim_note("C08 xstream-barrier n=%d rounds=%d", X.n, X.R);
+    sim_note("C08 xstream-barrier streams=%d of %d, external threads=%d, rounds=%d", nes_part, rt.nes, next, X.R);
     ABT_OK(ABT_xstream_barrier_create((uint32_t)X.n, &X.xb));
     ABT_thread th[WL_MAX_ES];
-    for (int e = 1; e < rt.nes; e++)
-        ABT_OK(ABT_thread_create(rt.pools[rt.es_first_pool[e]], xb_body, NULL, ABT_THREAD_ATTR_NULL, &th[e]));
+    int is_task[WL_MAX_ES] = { 0 };
+    for (int e = 1; e < nes_part; e++) {
+        is_task[e] = plan_n(4) == 0;
+        if (is_task[e])
+            ABT_OK(ABT_task_create(rt.pools[rt.es_first_pool[e]], xb_body, NULL, &th[e]));
+        else
+            ABT_OK(ABT_thread_create(rt.pools[rt.es_first_pool[e]], xb_body, NULL, ABT_THREAD_ATTR_NULL, &th[e]));
+    }
+    int xt[4];
+    for (int i = 0; i < next; i++)
+        xt[i] = sim_thread_create(xb_ext, NULL);
     xb_body(NULL);
-    for (int e = 1; e < rt.nes; e++)
+    for (int e = 1; e < nes_part; e++)
         ABT_OK(ABT_thread_free(&th[e]));
+    for (int i = 0; i < next; i++)
+        sim_thread_join(xt[i]);
     for (int r = 0; r < X.R; r++)
         SIM_CHECK(X.returned[r] == X.n, "xbarrier:missing-return", "round %d: %d of %d returned", r, X.returned[r], X.n);
+    if (next)
+        sim_count("c08.xbarrier_rounds_with_external_threads", (uint64_t)X.R);
     ABT_OK(ABT_xstream_barrier_free(&X.xb));
     wl_rt_stop(&rt);
 }
